@@ -13,14 +13,11 @@ Modelled functions (branch for branch where the property depends on it):
   `ptPoly`        points_polygon                         plane projection + winding test, else edges
   `segPoly`       segments_polygon                       crossing / in-plane / general branch
 
-The model follows the PROPERTY where the code at the pinned commit deviates from it (recorded in
-known_findings.d/C30.json, repairs in fixes/C30-*.diff):
-  * zero-length segments are points (the code returns NaN),
-  * the two tolerance tests of the segment-segment kernel are dimensionless
-    (`discr < tol*|u|²|v|²`, `sN < tol*sD`; the code compares with `tol*min(|u|²,|v|²)`, which agrees
-    at unit scale but declares everything parallel below lengths of about 1e-4),
-  * the winding test only inspects edges that can contain the point,
-  * a segment in the polygon's plane with only its END point inside reports that end point.
+History: the first version of this model followed the PROPERTY where the code deviated from it (zero-length
+segments gave NaN, the tolerance tests of the segment-segment kernel were not scale invariant, the winding
+test inspected edges that cannot contain the point, an in-plane segment with only its END point inside
+reported its start point, `segment_set` always raised).  These defects were repaired in /repo (`fix:`
+commits 184afbedd, 125ef57f2, 09e180387, 6d29d1a5f, 7143938de); the model is the code as it is now.
 -/
 namespace PorepyVerif.C30
 
@@ -188,12 +185,12 @@ def cross3 : Vec → Vec → Vec
   | _, _ => [0, 0, 0]
 
 /-- cyclic list of edges `(v_i, v_{i+1})` -/
-def edgesFrom (first : Vec) : List Vec → List (Vec × Vec)
+def edgesFrom {α : Type} (first : α) : List α → List (α × α)
   | [] => []
   | [v] => [(v, first)]
   | v :: w :: rest => (v, w) :: edgesFrom first (w :: rest)
 
-def edges (poly : List Vec) : List (Vec × Vec) :=
+def edges {α : Type} (poly : List α) : List (α × α) :=
   match poly with
   | [] => []
   | v :: _ => edgesFrom v poly
@@ -228,21 +225,63 @@ def to2d (n x : Vec) : Rat × Rat :=
     else (x1, x2)
   | _, _ => (0, 0)
 
+/-- position relative to the tested point -/
+def rel (p v : Rat × Rat) : Rat × Rat := (v.1 - p.1, v.2 - p.2)
+
+def cross2 (u v : Rat × Rat) : Rat := u.1 * v.2 - u.2 * v.1
+
+/-- `vertex_sgn`: sign of x, ties broken by the sign of y -/
+def vsign2 (u : Rat × Rat) : Int := vsign u.1 u.2
+
+/-- `edge_boundary != 0`: the end points of the edge are on different sides of the point -/
+def active (p : Rat × Rat) (e : (Rat × Rat) × (Rat × Rat)) : Bool :=
+  vsign2 (rel p e.2) - vsign2 (rel p e.1) != 0
+
+/-- `edge_sgn` -/
+def edgeSgn (p : Rat × Rat) (e : (Rat × Rat) × (Rat × Rat)) : Int := sgn (cross2 (rel p e.1) (rel p e.2))
+
+/-- `contrib`: `edge_sgn` on active edges, 0 elsewhere -/
+def contrib (p : Rat × Rat) (e : (Rat × Rat) × (Rat × Rat)) : Int := if active p e then edgeSgn p e else 0
+
+def sumInt : List Int → Int
+  | [] => 0
+  | x :: xs => x + sumInt xs
+
 /-- `point_in_polygon` (winding number as coded, `default = False`): false on a vertex, false on an
-    edge; otherwise `|Σ edge_sgn over active edges| / 2 > 0`. -/
+    (active) edge; otherwise `|Σ contrib| / 2 > 0`. -/
 def windingInside (es : List ((Rat × Rat) × (Rat × Rat))) (p : Rat × Rat) : Bool :=
-  if es.any (fun e => (decide (e.1.1 - p.1 = 0) && decide (e.1.2 - p.2 = 0)) ||
-                      (decide (e.2.1 - p.1 = 0) && decide (e.2.2 - p.2 = 0))) then false
-  else
-    let act := es.filter fun e =>
-      vsign (e.2.1 - p.1) (e.2.2 - p.2) - vsign (e.1.1 - p.1) (e.1.2 - p.2) != 0
-    let sg := act.map fun e =>
-      sgn ((e.1.1 - p.1) * (e.2.2 - p.2) - (e.1.2 - p.2) * (e.2.1 - p.1))
-    if sg.any (· == 0) then false else sg.foldl (· + ·) 0 != 0
+  if es.any (fun e => (decide ((rel p e.1).1 = 0) && decide ((rel p e.1).2 = 0)) ||
+                      (decide ((rel p e.2).1 = 0) && decide ((rel p e.2).2 = 0))) then false
+  else if es.any (fun e => active p e && (edgeSgn p e == 0)) then false
+  else sumInt (es.map (contrib p)) != 0
 
 /-- membership of a point of the polygon's plane -/
 def inPoly (poly : List Vec) (n x : Vec) : Bool :=
   windingInside ((edges poly).map fun e => (to2d n e.1, to2d n e.2)) (to2d n x)
+
+/-! ### specification of a convex polygon as a point set (used by the theorems only) -/
+
+/-- `((b - a) × (x - a)) · n`: positive iff `x` is to the left of the directed line `a → b` seen against `n` -/
+def side3 (n a b x : Vec) : Rat := dot (cross3 (vsub b a) (vsub x a)) n
+
+/-- the closed region of the polygon's plane cut out by the half-planes to the left of all edges
+    (for a convex polygon, counter-clockwise about its Newell normal: the polygon itself) -/
+def InRegion (poly : List Vec) (x : Vec) : Prop :=
+  x.length = 3 ∧ dot (vsub x (centroid poly)) (normal poly) = 0 ∧
+    ∀ g ∈ edges poly, 0 ≤ side3 (normal poly) g.1 g.2 x
+
+/-- planar convex polygon with strictly convex corners: every edge has a predecessor and a successor with a
+    strict left turn at the shared vertex, and every vertex lies in the half-plane of every edge -/
+structure ConvexPoly (poly : List Vec) : Prop where
+  nn : nsq (normal poly) ≠ 0
+  nlen : (normal poly).length = 3
+  clen : (centroid poly).length = 3
+  len3 : ∀ g ∈ edges poly, g.1.length = 3 ∧ g.2.length = 3
+  planar : ∀ g ∈ edges poly, dot (vsub g.1 (centroid poly)) (normal poly) = 0 ∧
+    dot (vsub g.2 (centroid poly)) (normal poly) = 0
+  corners : ∀ g ∈ edges poly, ∃ gp ∈ edges poly, ∃ gn ∈ edges poly, gp.2 = g.1 ∧ gn.1 = g.2 ∧
+    0 < side3 (normal poly) gp.1 g.1 g.2 ∧ 0 < side3 (normal poly) g.1 g.2 gn.2
+  vertsIn : ∀ g ∈ edges poly, ∀ h ∈ edges poly, 0 ≤ side3 (normal poly) h.1 h.2 g.1
 
 /-- first minimum (as `np.argmin`) of the point–segment distances over a list of edges -/
 def minPtSeg (p : Vec) : List (Vec × Vec) → Option PtSegOut
